@@ -472,6 +472,12 @@ static const char *type_name(cfg_type_t t)
 	}
 }
 
+/* CFG_SIMPLE_*: the value lives in a variable of the application.  One cell per declared simple option and cfg_init();
+ * the array keeps them reachable (the strings the library stores in them belong to the application, which here never
+ * frees them before exit) */
+static cfg_value_t *simple_cells[1024];
+static int nsimple;
+
 /* build the cfg_opt_t array for rows[*pos...] of the given depth */
 static cfg_opt_t *build_opts(int *pos, int depth)
 {
@@ -527,6 +533,33 @@ static cfg_opt_t *build_opts(int *pos, int depth)
 				*q++ = '}';
 			*q = 0;
 			o->def.parsed = buf;
+		} else if (strchr(r->cbs, 's') && !(r->flags & CFGF_LIST) && nsimple < 1024 &&
+			   (r->type == CFGT_INT || r->type == CFGT_FLOAT || r->type == CFGT_BOOL || r->type == CFGT_STR)) {
+			/* what CFG_SIMPLE_INT(name, &var) etc. expand to; the default column says what the variable holds at first */
+			cfg_value_t *cell = calloc(1, sizeof *cell);
+
+			simple_cells[nsimple++] = cell;
+			switch (r->type) {
+			case CFGT_INT:
+				cell->number = strtol(r->def, NULL, 10);
+				o->simple_value.number = &cell->number;
+				break;
+			case CFGT_FLOAT:
+				cell->fpnumber = bitsd(strtoull(r->def, NULL, 16));
+				o->simple_value.fpnumber = &cell->fpnumber;
+				break;
+			case CFGT_BOOL:
+				cell->boolean = (cfg_bool_t)(r->def[0] == '1');
+				o->simple_value.boolean = &cell->boolean;
+				break;
+			default: {
+				char *t = unhex(r->def, NULL);
+
+				cell->string = t;	/* malloc()ed: the library releases it with free() when it stores another */
+				o->simple_value.string = &cell->string;
+				break;
+			}
+			}
 		} else if (!(r->flags & CFGF_LIST)) {
 			switch (r->type) {
 			case CFGT_INT:
@@ -693,10 +726,22 @@ static void dump_opt(cfg_t *cfg, cfg_opt_t *opt, int depth)
 {
 	unsigned int i;
 
+	unsigned int n = opt->nvalues;
+	int flags = opt->flags;
+
 	cross_check(cfg, opt);
+	if (opt->simple_value.ptr) {
+		/* a simple option is shown as what it is: a scalar option holding exactly one value, the application's variable
+		 * (read below through the getters).  The library keeps no cell of its own for it ... */
+		if (opt->nvalues != 0 || opt->values)
+			getter_hazard(opt, "simple_has_cells", opt->nvalues);
+		n = 1;
+		/* ... and never takes back the parser's "replace" mark, which it only looks at for cells of its own */
+		flags &= ~CFGF_RESET;
+	}
 	fprintf(obs, "V %d ", depth);
 	puthex(opt->name);
-	fprintf(obs, " %s %d %u ", type_name(opt->type), opt->flags, opt->nvalues);
+	fprintf(obs, " %s %d %u ", type_name(opt->type), flags, n);
 	puthex(opt->comment);
 	if (opt->type == CFGT_SEC) {
 		fputs("\n", obs);
@@ -710,7 +755,7 @@ static void dump_opt(cfg_t *cfg, cfg_opt_t *opt, int depth)
 		}
 		return;
 	}
-	for (i = 0; i < opt->nvalues; i++) {
+	for (i = 0; i < n; i++) {
 		switch (opt->type) {
 		case CFGT_INT:
 			fprintf(obs, " %ld", cfg_opt_getnint(opt, i));
